@@ -385,7 +385,8 @@ def kvGet (k : String) (ws : List String) : Option String :=
 
 `case <name> kind=acc max=<n|default> tmo=<ms|default>`; ops `ready [w]` (readiness asked by task `w` = 0..2,
 distinct wakers; `r=<mask>`: bit `w` set = task `w` has been woken), `call <r|o> <r13|r12|o13|o12>`,
-`poll k`, `drop k`, `cflight k full|part|rest`, `garbage k <kind>`, `close k`, `advance ms`, `run ms`,
+`poll k [w]` (the accept future polled from task `w` = 0..2, default 0; `w=<mask>` / `woken=[k,k.1,k.2,..]`
+show which of these tasks have been woken), `drop k`, `cflight k full|part|rest`, `garbage k <kind>`, `close k`, `advance ms`, `run ms`,
 `setmax n` (`max_concurrent_tls_connect(n)` after this thread's counter exists) / `probe` (the limit a freshly
 spawned thread gets), `fnew` / `fset f ms` / `fclone f` / `fsvc f` (acceptor factories of this thread: `Acceptor::new`,
 `set_handshake_timeout`, `clone`, `ServiceFactory::new_service`), `call <r|o> <cli> s` (through service `s`),
@@ -439,27 +440,34 @@ def deadline (c : AccCase) (k : Nat) : Nat :=
 def usable (c : AccCase) (k : Nat) : Bool :=
   k < c.results.size && c.results[k]! == some Outcome.ok && !(c.fin[k]?.getD false)
 
-/-- poll future `k` (must be alive) -/
-def pollOne (c : AccCase) (k : Nat) : AccCase × Option Outcome :=
+/-- which of the tasks that polled accept future `k` have been woken: bit `w` for task `w` (tasks 0..2) -/
+def wMask (cn : Conn) : String :=
+  toString ((if cn.wokenW 0 then 1 else 0) + (if cn.wokenW 1 then 2 else 0) + (if cn.wokenW 2 then 4 else 0))
+
+/-- poll future `k` (must be alive) from task `w` (default: the task that polled it last, initially 0) -/
+def pollOne (c : AccCase) (k : Nat) (w? : Option Nat := none) : AccCase × Option Outcome :=
   let conn := c.conns[k]!
   let (svc', o) := c.svc.pollK k c.now conn.hsPoll
-  ({ c with svc := svc', conns := c.conns.set! k conn.afterPoll,
+  ({ c with svc := svc', conns := c.conns.set! k (conn.afterPoll (w?.getD conn.lastW)),
             results := match o with | some r => c.results.set! k (some r) | none => c.results }, o)
 
 def wokenList (c : AccCase) : String :=
-  let ks := (List.range c.conns.size).filter fun k => c.alive k && c.conns[k]!.woken
-  let xs := ks.map toString ++ (if c.svc.wokenW 0 then ["r"] else []) ++ (if c.svc.wokenW 1 then ["r1"] else [])
+  let ks := ((List.range c.conns.size).filter fun k => c.alive k).flatMap fun k =>
+    let cn := c.conns[k]!
+    (if cn.wokenW 0 then [toString k] else []) ++ (if cn.wokenW 1 then [s!"{k}.1"] else []) ++ (if cn.wokenW 2 then [s!"{k}.2"] else [])
+  let xs := ks ++ (if c.svc.wokenW 0 then ["r"] else []) ++ (if c.svc.wokenW 1 then ["r1"] else [])
     ++ (if c.svc.wokenW 2 then ["r2"] else [])
   "[" ++ ",".intercalate xs ++ "]"
 
-/-- timers: a parked future whose deadline lies in `(old, new]` is woken -/
+/-- timers: a parked future whose deadline lies in `(old, new]` is woken — through the waker of its LAST poll -/
 def tick (c : AccCase) (new : Nat) : AccCase :=
   let conns := (List.range c.conns.size).foldl (fun (cs : Array Conn) k =>
     let cn := cs[k]!
-    if c.alive k && cn.polled && c.now < c.deadline k && c.deadline k ≤ new then cs.set! k { cn with woken := true } else cs) c.conns
+    if c.alive k && cn.polled && c.now < c.deadline k && c.deadline k ≤ new then cs.set! k cn.wake else cs) c.conns
   { c with conns := conns, now := new }
 
-/-- executor discipline: poll every future that has been woken (or was never polled) -/
+/-- executor discipline: every future is polled by the task that owns it (the one that polled it last) whenever
+that task has been woken (or the future was never polled) -/
 def sweep (c : AccCase) (done : List String) : AccCase × List String :=
   (List.range c.conns.size).foldl (fun (acc : AccCase × List String) k =>
     let (c, done) := acc
@@ -530,10 +538,19 @@ def step (c : AccCase) (ws : List String) : AccCase × String :=
     match k.toNat? with
     | some k =>
       if c.alive k then
-        let (c', o) := c.pollOne k
+        let (c', o) := c.pollOne k (some 0)
         (c', s!"{match o with | some r => outcomeStr r | none => "pending"} r={rMask c'.svc}")
       else (c, "bad-op")
     | none => (c, "bad-op")
+  | ["poll", k, w] =>
+    -- the accept future polled from task `w` (its own waker): it is that task's from now on
+    match k.toNat?, (canonNat w).filter (· < 3) with
+    | some k, some w =>
+      if c.alive k then
+        let (c', o) := c.pollOne k (some w)
+        (c', s!"{match o with | some r => outcomeStr r | none => "pending"} r={rMask c'.svc}")
+      else (c, "bad-op")
+    | _, _ => (c, "bad-op")
   | ["drop", k] =>
     match k.toNat? with
     | some k =>
@@ -549,7 +566,7 @@ def step (c : AccCase) (ws : List String) : AccCase × String :=
     | some k, some m =>
       if c.alive k && !c.conns[k]!.spoiled && !c.conns[k]!.closed then
         let (cn, sent) := c.conns[k]!.cflight m
-        ({ c with conns := c.conns.set! k cn }, s!"{if sent then "sent" else "nothing"} w={b01 cn.woken}")
+        ({ c with conns := c.conns.set! k cn }, s!"{if sent then "sent" else "nothing"} w={wMask cn}")
       else (c, "bad-op")
     | _, _ => (c, "bad-op")
   | ["garbage", k, kind] =>
@@ -557,7 +574,7 @@ def step (c : AccCase) (ws : List String) : AccCase × String :=
     | some k =>
       if c.alive k && !c.conns[k]!.spoiled && !c.conns[k]!.closed && c.conns[k]!.delivered < 2 && (kind == "http" || kind == "zero" || kind == "ff" || kind == "rnd") then
         let cn := c.conns[k]!.garbage
-        ({ c with conns := c.conns.set! k cn }, s!"ok w={b01 cn.woken}")
+        ({ c with conns := c.conns.set! k cn }, s!"ok w={wMask cn}")
       else (c, "bad-op")
     | none => (c, "bad-op")
   | ["close", k] =>
@@ -565,7 +582,7 @@ def step (c : AccCase) (ws : List String) : AccCase × String :=
     | some k =>
       if c.alive k && !c.conns[k]!.spoiled && !c.conns[k]!.closed then
         let cn := c.conns[k]!.close
-        ({ c with conns := c.conns.set! k cn }, s!"ok w={b01 cn.woken}")
+        ({ c with conns := c.conns.set! k cn }, s!"ok w={wMask cn}")
       else (c, "bad-op")
     | none => (c, "bad-op")
   | ["advance", ms] =>
